@@ -32,6 +32,7 @@ TextsHead == {<<>>, <<" ", "x", " ">>}
 TextsTail == {<<" ", "x", " ">>, <<"x", "\n">>, <<" ">>}
 BodiesQuick == {<<" ", "x", " ">>, <<"\n", "x", "\n">>}
 BodiesFull == BodiesQuick \cup {<<>>, <<" ">>, <<"x">>}
+BodiesEmpty == {<<>>}          \* `{% raw %}{% endraw %}` : nothing between the two tags
 
 Ws == {" ", "\n"}
 RECURSIVE LStrip(_)
